@@ -20,7 +20,7 @@
 From Coq Require Import List String Permutation.
 From Sheens Require Import Model.Match.   (* first: the sio modules' names (ord_id) take precedence *)
 From Sheens Require Import Model.SioRecorder Spec.SioSpec Proofs.SioRouting Proofs.SioRecorderFacts Proofs.SioStrip.
-From Sheens Require Import Gen.SioSpecs Proofs.SioSpecTie.
+From Sheens Require Import Gen.SioSpecs Proofs.SioSpecTie Proofs.SioIdsTie.
 Import ListNotations.
 Open Scope string_scope.
 
@@ -240,6 +240,20 @@ Print Assumptions C14_sio_timers_shape_is_source_patterns.
 Print Assumptions C14_sio_timers_start_never_errs.
 Print Assumptions C14_sio_captain_start_accepts_all.
 Print Assumptions C14_sio_service_start_nodes_take_messages.
+
+(** the ids of the two service machines, by which [addressed], [can_see] and
+    [present] tell them from ordinary machines, are read from the source of
+    the tree under test (Gen/Names.v: the declarations of sio.TimersMachine
+    and sio.CaptainMachine); they are the ids the documentation sends timer
+    requests and crew operations to (sio/siostd/README.md) *)
+Theorem C14_sio_service_ids_are_documented :
+  timers_id = "timers" /\ captain_id = "captain" /\ timers_id <> captain_id.
+Proof. exact service_ids_documented. Qed.
+Theorem C14_sio_is_service_documented : forall m,
+  is_service m = (String.eqb m "timers" || String.eqb m "captain")%bool.
+Proof. exact is_service_documented. Qed.
+Print Assumptions C14_sio_service_ids_are_documented.
+Print Assumptions C14_sio_is_service_documented.
 
 (** non-vacuity: with the bindings {"timers": {}} a makeTimer request takes
     "make", a cancelTimer request "cancel"; a makeTimer request without "id",
